@@ -223,6 +223,57 @@ def run(repo: Repo, rep: Report, tier: str) -> None:
     n_t = zero_legal_truthiness(repo, rep, "none-not-falsy", {"MessageID", "MessageIDBeingRespondedTo", "MoveOriginatorMessageID", "Status", "Priority"})
     rep.counters["truthiness tests on zero-legal DIMSE fields"] = n_t
     check_fresh_message(repo, rep, "fresh-message")
+    from ..delegate import delegate as _delegate17
+    rep.rule("dataset-whole", "the data-set parameter is carried between primitive and message as the whole buffer, independent of the stream position (C16's position-independent rule)")
+    _delegate17(repo, rep, tier, "C16", ("position-independent",), "dataset-whole", "a primitive converted a second time, or one that came from message_to_primitive() (its stream stands at the end), loses its data set in the conversion: Command Data Set Type becomes 0x0101 and the data-set bytes are dropped")
+    rep.floor("setter evaluations with legal falsy values", check_falsy_values_kept(repo, rep, "none-not-falsy"), 10)
+
+
+FALSY_LEGAL = ("MessageID", "MessageIDBeingRespondedTo", "MoveOriginatorMessageID", "Status", "Priority", "EventTypeID", "ActionTypeID", "NumberOfRemainingSuboperations", "NumberOfCompletedSuboperations", "NumberOfFailedSuboperations", "NumberOfWarningSuboperations", "AttributeIdentifierList")
+
+
+def check_falsy_values_kept(repo: Repo, rep: Report, rule: str) -> int:
+    """The setters of the parameters whose legal values include a falsy one (0 for IDs, Status, Priority and
+    counters; tag (0000,0000) - an int - alone or as a one-element list for the Attribute Identifier List) are
+    evaluated (sa/minipy.py) with that value: what the setter stores must be that value, not None. A guard
+    written `if not value:` treats the legal value as 'absent' and the element silently disappears from the
+    message (the receiver of an N-GET for tag 0 is told 'all attributes')."""
+    from ..minipy import Interp, Obj, Raised, Unsupported
+
+    pm = repo.mod("dimse_primitives")
+    n = 0
+    seen = set()
+    for cname, ci in sorted(pm.classes.items()):
+        for pname in FALSY_LEGAL:
+            st = ci.setters.get(pname)
+            if st is None or id(st) in seen:
+                continue
+            seen.add(id(st))
+            values = [0] + ([[0]] if pname == "AttributeIdentifierList" else [])
+            for v in values:
+                me = Obj(cname, {})
+                # every private field the setter may read first
+                for a in ast.walk(st):
+                    if isinstance(a, ast.Attribute) and norm(a.value) == "self" and a.attr.startswith("_"):
+                        me.attrs.setdefault(a.attr, None)
+                before = dict(me.attrs)
+                it = Interp({"Tag": lambda x: x, "BaseTag": int, "LOGGER": None}, classes={"ValueError": lambda *a_: Obj("ValueError"), "TypeError": lambda *a_: Obj("TypeError")})
+                params = [a.arg for a in st.args.args]
+                try:
+                    it.call_function(st, dict(zip(params, [me, v])))
+                except Raised as r:
+                    n += 1
+                    rep.fail(rule, f"dimse_primitives.{cname}.{pname}", f"value {v!r} -> raises {r.kind}", f"the setter refuses {v!r}, a legal value of this parameter", mod=pm, node=st)
+                    continue
+                except Unsupported:
+                    continue
+                n += 1
+                changed = {k: me.attrs[k] for k in me.attrs if not k.startswith("@") and (k not in before or me.attrs[k] is not before[k] or k in ("_" + pname,))}
+                stored = [x for x in changed.values() if x is not None]
+                want = 0
+                ok = any((x == want and not isinstance(x, bool)) for x in stored)
+                rep.check(ok, rule, f"dimse_primitives.{cname}.{pname}", f"value {v!r} -> stored {sorted(map(repr, changed.values()))}", f"{pname} = {v!r} is a legal value (0 is a valid ID / status / priority / counter; (0000,0000) is a tag) but the setter stores None for it: the parameter is treated as absent, the command element is left out of the message and the peer sees a different request or response", mod=pm, node=st)
+    return n
 
 
 def check_fresh_message(repo: Repo, rep: Report, rule: str) -> int:
